@@ -139,7 +139,10 @@ def binop(ex, st, op, a, b, node=None):
                     outs.append((s2, Raised('ZeroDivisionError', note='line %s' % getattr(node, 'lineno', '?'))))
                     continue
                 if isinstance(op, ast.Div):
-                    outs.append((s2, VReal(to_real(a) / to_real(b))))
+                    q = VReal(to_real(a) / to_real(b))
+                    if both_int:
+                        q.intdiv = (to_int(a), to_int(b))       # int(a / b) on ints: exact truncated quotient
+                    outs.append((s2, q))
                 elif isinstance(op, ast.FloorDiv):
                     if both_int:
                         outs.append((s2, VInt(int_floordiv(ex, s2, to_int(a), to_int(b)))))
@@ -925,6 +928,12 @@ def b_int(ex, st, args, kwargs, node):
     if isinstance(v, (VInt, VBool)):
         return [(st, VInt(to_int(v)))]
     if isinstance(v, VReal):
+        idv = getattr(v, 'intdiv', None)
+        if idv is not None and z3.is_int_value(idv[1]) and idv[1].as_long() > 0:
+            a_, b_ = idv      # trunc(a / b) for integers a, b > 0 in integer arithmetic (z3 div floors for b > 0)
+            if not st.spec and not ex.feasible(st, a_ < 0):
+                return [(st, VInt(a_ / b_))]
+            return [(st, VInt(z3.If(a_ >= 0, a_ / b_, -((-a_) / b_))))]
         return [(st, VInt(trunc_real(v.t)))]
     if isinstance(v, VStr):
         from . import strings
@@ -1853,16 +1862,72 @@ def it_zip_longest(ex, st, args, kwargs, node):
 # ---- os.path (string level; POSIX separators) ---------------------------------------------------------------------
 @extern('os.path.join')
 def os_path_join(ex, st, args, kwargs, node):
-    """join(a, b, ...) = a + '/' + b ... for relative, non-empty components and a not ending in '/'.
-    (a component starting with '/' would discard what precedes it: excluded by the stated assumption)"""
+    """posixpath.join: a component starting with '/' discards what precedes it; otherwise it is appended, with a '/'
+    in between unless the path so far is empty or already ends in '/' (so an empty component only adds the '/')."""
     if any(isinstance(a, VOpaque) for a in args):
         return [(st, VOpaque(name='path'))]
     if not all(isinstance(a, VStr) for a in args):
         raise Unsupported('os.path.join of non-strings')
+    sl = z3.StringVal('/')
+
+    def is_number_image(t):
+        # A-fmt: the images of '%d', '%0Kd', '%0Kx' are non-empty and contain no '/'
+        return z3.is_app(t) and t.decl().kind() == z3.Z3_OP_UNINTERPRETED and t.decl().name() in ('fmt_d', 'fmt_0d', 'fmt_0x')
+
+    def first_char_known(t):
+        """-> True/False if the term certainly starts / does not start with '/', None if unknown"""
+        while z3.is_app(t) and t.decl().kind() == z3.Z3_OP_SEQ_CONCAT:
+            t = t.arg(0)
+        if z3.is_string_value(t) and t.as_string() != '':
+            return t.as_string().startswith('/')
+        if is_number_image(t):
+            return False
+        return None
+
+    def last_char_known(t):
+        while z3.is_app(t) and t.decl().kind() == z3.Z3_OP_SEQ_CONCAT:
+            t = t.arg(t.num_args() - 1)
+        if z3.is_string_value(t) and t.as_string() != '':
+            return t.as_string().endswith('/')
+        if is_number_image(t):
+            return False
+        return None
+    def decide(cond):
+        """-> True / False if the path condition settles cond, else None"""
+        if getattr(st, 'bound', ()):
+            return None
+        for c_, verdict in ((cond, False), (z3.Not(cond), True)):
+            sv = z3.Solver()
+            sv.set('rlimit', 300000)        # a resource (not wall-clock) bound: the same decision under any load
+            sv.add(*st.pc)
+            sv.add(c_)
+            if sv.check() == z3.unsat:
+                return verdict
+        return None
     t = args[0].t
     for a in args[1:]:
-        t = z3.Concat(t, z3.StringVal('/'), a.t)
-    ex.used_stubs.add("os.path.join(a, b) = a + '/' + b (components relative and non-empty, POSIX separator)")
+        b = a.t
+        absb = first_char_known(b)
+        if absb is None:
+            absb = decide(z3.PrefixOf(sl, b))
+        ends = last_char_known(t)
+        if ends is None and absb is not True:
+            ends = decide(z3.Or(t == z3.StringVal(''), z3.SuffixOf(sl, t)))
+        if ends is True:
+            appended = z3.Concat(t, b)
+        elif ends is False:
+            appended = z3.Concat(t, sl, b)
+        else:
+            # the separator decision is kept inside the common prefix, so that two names built on the same directory
+            # share a syntactically identical prefix term
+            appended = z3.Concat(z3.If(z3.Or(t == z3.StringVal(''), z3.SuffixOf(sl, t)), t, z3.Concat(t, sl)), b)
+        if absb is True:
+            t = b
+        elif absb is False:
+            t = appended
+        else:
+            t = z3.If(z3.PrefixOf(sl, b), b, appended)
+    ex.used_stubs.add("os.path.join: posixpath semantics (absolute component restarts, '/' inserted unless the prefix is empty or ends in '/')")
     return [(st, VStr(t))]
 
 
@@ -1874,6 +1939,7 @@ def os_path_dirname(ex, st, args, kwargs, node):
     return [(st, VStr(f(args[0].t)))]
 
 
+BUILTINS['pjoin'] = os_path_join      # spec dialect: os.path.join
 from . import filemodel as _filemodel  # noqa
 import sys as _sys  # noqa
 _filemodel.install(_sys.modules[__name__])
